@@ -2,14 +2,19 @@
    Property theorems only. The model is model/Provider.v (cursor.Provider over the pointer ring of
    model/CList.v); histories are lists of atomic steps of concurrent requests (actors), the
    sweeper and the clock, so "for all histories and schedules" is "for all `ops : list op`".
-   Where the faithful model violates the full statement the file has the statement as a
-   Definition, a `_refuted` witness (replayed on the implementation by the harness corpus) and a
-   `_partial` theorem under the client discipline `disciplined` (model/Provider.v: an id that is
-   in flight is requested again only while its cursor sits in the cache marked busy). *)
+   The step function takes the `variant` of provider.go: `code_variant` is the code as it is,
+   `old_variant` the code before the repairs C15-sameid-race (GetOrCreate's insert region and
+   Release identify a cache entry by id AND cursor) and C15-shutdown-close (Shutdown evicts the
+   cache). Every full statement is a Definition over the variant, proved for `code_variant` with no
+   hypothesis on the clients (any number of concurrent requests may name the same id), and
+   refuted for `old_variant` by the witness that the harness corpus still replays on the
+   implementation. K runs `step code_variant`. *)
 From LR Require Import lib.Base model.CList model.Provider proofs.CListP proofs.ProviderP.
 
-Definition final (max : nat) (idle busyto : Z) (ops : list op) : prov := fst (fst (run (init max idle busyto) ops)).
-Definition outcome_of (max : nat) (idle busyto : Z) (ops : list op) : outcome unit := snd (run (init max idle busyto) ops).
+Definition final (v : variant) (max : nat) (idle busyto : Z) (ops : list op) : prov := fst (fst (run v (init max idle busyto) ops)).
+Definition outcome_of (v : variant) (max : nat) (idle busyto : Z) (ops : list op) : outcome unit := snd (run v (init max idle busyto) ops).
+Definition results_of (v : variant) (max : nat) (idle busyto : Z) (ops : list op) : list res := snd (fst (run v (init max idle busyto) ops)).
+
 
 (* ------------------------------------------------------------------ the ring refines a list *)
 (* TearOff of a member: the ring now stands for the list without it, the element is detached, nothing else is written *)
@@ -37,54 +42,76 @@ Qed.
 Print Assumptions C15_ring_reads.
 
 (* ------------------------------------------------------------------ no panic *)
-Definition C15_no_panic_statement : Prop :=
-  forall max idle busyto ops, outcome_of max idle busyto ops = Ok tt.
+(* no step of any history panics (Release's explicit panic, the nil dereferences in both sweeps) or runs out of
+   fuel: every step yields a result *)
+Definition no_panic_statement (v : variant) : Prop :=
+  forall max idle busyto ops,
+    outcome_of v max idle busyto ops = Ok tt /\ length (results_of v max idle busyto ops) = length ops.
+
+Theorem C15_no_panic : no_panic_statement code_variant.
+Proof.
+  intros max idle busyto ops.
+  destruct (inv_run false ops _ (inv_init false max idle busyto)) as (H1 & _ & H3); [intros H; discriminate H|].
+  split; assumption.
+Qed.
+Print Assumptions C15_no_panic.
 
 Definition race_ops : list op :=
   [OLookup 0 5 true 0 (QParts [0%N]) PHead 100; OLookup 1 5 true 0 (QParts [0%N]) PHead 101;
    OCreate 0; OInsert 0; OCreate 1; OInsert 1].
 
-(* two requests name the same uncached id, both miss before either inserts: the second's Release panics *)
-Theorem C15_no_panic_refuted : exists max idle busyto ops, outcome_of max idle busyto ops = Panic.
-Proof. exists 10, 3%Z, 7%Z, (race_ops ++ [ORelease 0; ORelease 1]). vm_compute. reflexivity. Qed.
-Print Assumptions C15_no_panic_refuted.
-
-(* a request outlives busyTo, the client retries with the same id, the late Release of the first ... *)
-Theorem C15_no_panic_busy_expiry_refuted : exists max idle busyto ops, outcome_of max idle busyto ops = Panic.
+(* before the repair: two requests name the same uncached id, both miss before either inserts: the second's Release panics *)
+Theorem C15_no_panic_idonly_refuted : ~ no_panic_statement old_variant.
 Proof.
-  exists 10, 3%Z, 7%Z,
+  intros H. destruct (H 10 3%Z 7%Z (race_ops ++ [ORelease 0; ORelease 1])) as [H1 _]. vm_compute in H1. discriminate H1.
+Qed.
+Print Assumptions C15_no_panic_idonly_refuted.
+
+(* before the repair, without a race window: a request outlives busyTo, the client retries with the same id, the late
+   Release of the first marks the second's holder idle, the second's Release panics *)
+Theorem C15_no_panic_idonly_busy_expiry_refuted : ~ no_panic_statement old_variant.
+Proof.
+  intros H. destruct (H 10 3%Z 7%Z
     [OLookup 0 5 true 0 (QParts [0%N]) PHead 100; OCreate 0; OInsert 0; OTick 8; OSweepTime;
-     OLookup 1 5 true 0 (QParts [0%N]) PHead 101; OCreate 1; OInsert 1; ORelease 0; ORelease 1].
-  vm_compute. reflexivity.
+     OLookup 1 5 true 0 (QParts [0%N]) PHead 101; OCreate 1; OInsert 1; ORelease 0; ORelease 1]) as [H1 _].
+  vm_compute in H1. discriminate H1.
 Qed.
-Print Assumptions C15_no_panic_busy_expiry_refuted.
+Print Assumptions C15_no_panic_idonly_busy_expiry_refuted.
 
-(* under the discipline no step of any history panics or loops: not Release, not a nil dereference in the sweeps *)
-Theorem C15_no_panic_partial : forall max idle busyto ops,
-  disciplined (init max idle busyto) ops = true ->
-  outcome_of max idle busyto ops = Ok tt /\ length (snd (fst (run (init max idle busyto) ops))) = length ops.
-Proof.
-  intros max idle busyto ops D. destruct (inv_run ops _ (inv_init max idle busyto) D) as (H1 & _ & H3). split; assumption.
-Qed.
-Print Assumptions C15_no_panic_partial.
+(* the repaired code on the same history: the second insert is refused (its cursor closed on the spot), the first
+   request goes on alone; afterwards nothing is left *)
+Example C15_race_refused :
+  let ops := race_ops ++ [ORelease 0; OTick 20; OSweepTime] in
+  nth 5 (results_of code_variant 10 3 7 ops) RNone = RInsRefused /\
+  nth 6 (results_of code_variant 10 3 7 ops) RNone = RReleased 5 (PAt 0) /\
+  outcome_of code_variant 10 3 7 ops = Ok tt /\
+  let s := final code_variant 10 3 7 ops in
+  p_curs s = [] /\ p_act s = [] /\ map (fun c => c_rels (p_cur s c)) (seq 0 (p_ncur s)) = [1; 1] /\ p_acq s 0%N = 0%Z.
+Proof. vm_compute. repeat split; reflexivity. Qed.
 
 (* ------------------------------------------------------------------ one user at a time *)
-Definition C15_exclusive_statement : Prop :=
+Definition exclusive_statement (v : variant) : Prop :=
   forall max idle busyto ops r r' c,
-    act_get (p_act (final max idle busyto ops)) r = AHold c ->
-    act_get (p_act (final max idle busyto ops)) r' = AHold c -> r = r'.
+    act_get (p_act (final v max idle busyto ops)) r = AHold c ->
+    act_get (p_act (final v max idle busyto ops)) r' = AHold c -> r = r'.
 
-(* after the race the first Release marks the second request's holder idle: a third request is handed the
-   cursor the second request is still reading from *)
-Theorem C15_exclusive_refuted : exists max idle busyto ops c,
-  act_get (p_act (final max idle busyto ops)) 1 = AHold c /\ act_get (p_act (final max idle busyto ops)) 2 = AHold c.
+Theorem C15_exclusive : exclusive_statement code_variant.
 Proof.
-  exists 10, 3%Z, 7%Z, (race_ops ++ [ORelease 0; OLookup 2 5 true 0 (QParts [0%N]) (PAt 0) 102]), 1.
-  vm_compute. split; reflexivity.
+  intros max idle busyto ops r r' c H H'. apply (inv_exclusive false _ (inv_reach max idle busyto ops) r r' c); left; assumption.
 Qed.
-Print Assumptions C15_exclusive_refuted.
+Print Assumptions C15_exclusive.
 
-(* unconditionally: a request for an id whose cached cursor is marked busy is refused and changes nothing;
+(* before the repair: after the race the first Release marks the second request's holder idle: a third request is handed
+   the cursor the second request is still reading from *)
+Theorem C15_exclusive_idonly_refuted : ~ exclusive_statement old_variant.
+Proof.
+  intros H.
+  specialize (H 10 3%Z 7%Z (race_ops ++ [ORelease 0; OLookup 2 5 true 0 (QParts [0%N]) (PAt 0) 102]) 1 2 1).
+  vm_compute in H. specialize (H eq_refl eq_refl). discriminate H.
+Qed.
+Print Assumptions C15_exclusive_idonly_refuted.
+
+(* in every state: a request for an id whose cached cursor is marked busy is refused and changes nothing;
    a cursor is handed out of the cache only if it was marked idle *)
 Theorem C15_refuse_busy : forall s r id cache q qr p fresh e,
   act_get (p_act s) r = AIdle -> id <> 0%N -> map_get (p_curs s) id = Some e -> h_busy (p_vals s e) = true ->
@@ -98,36 +125,44 @@ Theorem C15_hit_only_idle : forall s r id cache q qr p fresh s' c,
 Proof. exact hit_only_idle. Qed.
 Print Assumptions C15_hit_only_idle.
 
-(* under the discipline: no cursor is ever in the hands of two requests, a cursor in use is open, and if it is
-   in the cache it is marked busy there (so every further request for its id is refused, by C15_refuse_busy) *)
-Theorem C15_exclusive_partial : forall max idle busyto ops, disciplined (init max idle busyto) ops = true ->
-  let s := final max idle busyto ops in
+(* for every history and schedule: no cursor is ever in the hands of two requests (created or handed out), a cursor in
+   use is open, and a cache entry that carries it is the entry of its id and is marked busy (so every further request
+   for the id is refused, by C15_refuse_busy, until it is released) *)
+Theorem C15_exclusive_in_cache : forall max idle busyto ops,
+  let s := final code_variant max idle busyto ops in
   (forall r r' c, (act_get (p_act s) r = AHold c \/ act_get (p_act s) r = ACreated c) ->
                   (act_get (p_act s) r' = AHold c \/ act_get (p_act s) r' = ACreated c) -> r = r') /\
   (forall r c, act_get (p_act s) r = AHold c -> c < p_ncur s /\ c_live (p_cur s c) = true) /\
-  (forall r c e, act_get (p_act s) r = AHold c -> map_get (p_curs s) (c_id (p_cur s c)) = Some e ->
-                 h_busy (p_vals s e) = true /\ h_cur (p_vals s e) = Some c).
+  (forall r c k e, act_get (p_act s) r = AHold c -> map_get (p_curs s) k = Some e -> h_cur (p_vals s e) = Some c ->
+                   h_busy (p_vals s e) = true /\ k = c_id (p_cur s c)).
 Proof.
-  intros max idle busyto ops D s. destruct (inv_run ops _ (inv_init max idle busyto) D) as (_ & HI & _).
-  fold (final max idle busyto ops) in HI. fold s in HI.
-  split; [exact (inv_exclusive s HI)|]. split; [|exact (inv_held_busy s HI)].
-  intros r c H. assert (R : reachable s c) by (left; exists r; right; exact H).
-  destruct HI as (lb & lf & HL). pose proof HL as (_ & _ & (A1 & _) & _). apply (A1 r c). right. exact H.
+  intros max idle busyto ops s. pose proof (inv_reach max idle busyto ops) as HI. fold s in HI.
+  split; [exact (inv_exclusive false s HI)|]. split.
+  - intros r c H. destruct HI as (lb & lf & HL). pose proof HL as (_ & _ & (A1 & _) & _). apply (A1 r c). right. exact H.
+  - intros r c k e H Hm Hc. apply (inv_held_busy false s HI r c k e (or_intror H) Hm Hc).
 Qed.
-Print Assumptions C15_exclusive_partial.
+Print Assumptions C15_exclusive_in_cache.
 
 (* ------------------------------------------------------------------ released exactly once *)
 (* a cursor's partitions are released at most once, and exactly once when nothing refers to it any more *)
-Definition C15_once_statement : Prop :=
-  forall max idle busyto ops, let s := final max idle busyto ops in
+Definition once_statement (v : variant) : Prop :=
+  forall max idle busyto ops, let s := final v max idle busyto ops in
   forall c, c < p_ncur s -> c_rels (p_cur s c) <= 1 /\ (~ reachable s c -> c_rels (p_cur s c) = 1).
 
-(* "at most once" holds for every history and schedule *)
-Theorem C15_release_at_most_once : forall max idle busyto ops c,
-  c_rels (p_cur (final max idle busyto ops) c) <= 1 /\
-  (c_live (p_cur (final max idle busyto ops) c) = true -> c_rels (p_cur (final max idle busyto ops) c) = 0).
+Theorem C15_once : once_statement code_variant.
 Proof.
-  intros max idle busyto ops c. destruct (Jc_run ops _ (Jc_init max idle busyto) c) as [H1 H2]. split; assumption.
+  intros max idle busyto ops s c Hc. pose proof (inv_reach max idle busyto ops) as HI. fold s in HI.
+  destruct (inv_once false s HI c Hc) as [H1 H2]. split; [|intros H; apply (H2 H)].
+  destruct (Jc_run code_variant ops _ (Jc_init max idle busyto) c) as [_ J]. exact J.
+Qed.
+Print Assumptions C15_once.
+
+(* "at most once" does not depend on the repairs: it holds for every history and schedule of either variant *)
+Theorem C15_release_at_most_once : forall v max idle busyto ops c,
+  c_rels (p_cur (final v max idle busyto ops) c) <= 1 /\
+  (c_live (p_cur (final v max idle busyto ops) c) = true -> c_rels (p_cur (final v max idle busyto ops) c) = 0).
+Proof.
+  intros v max idle busyto ops c. destruct (Jc_run v ops _ (Jc_init max idle busyto) c) as [H1 H2]. split; assumption.
 Qed.
 Print Assumptions C15_release_at_most_once.
 
@@ -135,81 +170,108 @@ Definition leak_ops : list op :=
   [OLookup 0 5 true 0 (QParts [0%N; 1%N]) PHead 100; OLookup 1 5 true 0 (QParts [0%N; 1%N]) PHead 101;
    OCreate 0; OInsert 0; ORelease 0; OCreate 1; OInsert 1; ORelease 1; OTick 20; OSweepTime; OSweepTime].
 
-(* the race again, both requests complete normally: no request is left, the cache map is empty, every sweep
-   has run -- and the second cursor is never closed, its partitions stay acquired for ever *)
-Theorem C15_once_refuted : exists max idle busyto ops c,
-  let s := final max idle busyto ops in
-  c < p_ncur s /\ ~ reachable s c /\ c_rels (p_cur s c) = 0 /\ p_act s = [] /\ p_curs s = [] /\ p_acq s 0%N = 1%Z.
+(* before the repair: the race again, both requests complete normally: no request is left, the cache map is empty, every
+   sweep has run -- and the second cursor is never closed, its partitions stay acquired for ever *)
+Theorem C15_once_idonly_refuted : ~ once_statement old_variant.
 Proof.
-  exists 10, 3%Z, 7%Z, leak_ops, 1. cbn zeta.
-  assert (E : p_act (final 10 3 7 leak_ops) = [] /\ p_curs (final 10 3 7 leak_ops) = []) by (vm_compute; split; reflexivity).
+  intros H. specialize (H 10 3%Z 7%Z leak_ops 1). cbn zeta in H.
+  assert (E : p_act (final old_variant 10 3 7 leak_ops) = [] /\ p_curs (final old_variant 10 3 7 leak_ops) = []) by (vm_compute; split; reflexivity).
   destruct E as [Ea Ec].
-  split; [vm_compute; lia|]. split.
-  - intros [(r & [H|H])|(k & e & H & _)]; [rewrite Ea in H; discriminate|rewrite Ea in H; discriminate|rewrite Ec in H; discriminate].
-  - split; [vm_compute; reflexivity|]. split; [exact Ea|]. split; [exact Ec|vm_compute; reflexivity].
+  destruct H as [_ H]; [vm_compute; lia|].
+  assert (R : c_rels (p_cur (final old_variant 10 3 7 leak_ops) 1) = 0) by (vm_compute; reflexivity).
+  rewrite R in H. enough (0 = 1) by discriminate. apply H.
+  intros [(r & [Hr|Hr])|(k & e & Hk & _)]; [rewrite Ea in Hr; discriminate|rewrite Ea in Hr; discriminate|rewrite Ec in Hk; discriminate].
 Qed.
-Print Assumptions C15_once_refuted.
+Print Assumptions C15_once_idonly_refuted.
 
-(* under the discipline, in every reachable state and for every cursor ever created: it is open, never closed,
+Example C15_once_idonly_leak :
+  let s := final old_variant 10 3 7 leak_ops in p_act s = [] /\ p_curs s = [] /\ c_rels (p_cur s 1) = 0 /\ p_acq s 0%N = 1%Z.
+Proof. vm_compute. repeat split; reflexivity. Qed.
+
+(* for every history and schedule, in every reachable state and for every cursor ever created: it is open, never closed,
    as long as a request or the cache refers to it, and closed -- close() called once, partitions released once --
    as soon as nothing does (uncached release, idle expiry, busy expiry followed by the release, eviction by
-   size, the fallback after a failed ApplyState); the factory's books are exactly the open cursors *)
-Theorem C15_once_partial : forall max idle busyto ops, disciplined (init max idle busyto) ops = true ->
-  let s := final max idle busyto ops in
+   size, the fallback after a failed ApplyState, refusal at the insert, release under an id cached by another cursor,
+   shutdown); the factory's books are exactly the open cursors *)
+Theorem C15_once_accounting : forall max idle busyto ops,
+  let s := final code_variant max idle busyto ops in
   (forall c, c < p_ncur s ->
      (reachable s c -> c_live (p_cur s c) = true /\ c_closes (p_cur s c) = 0 /\ c_rels (p_cur s c) = 0) /\
      (~ reachable s c -> c_live (p_cur s c) = false /\ c_closes (p_cur s c) = 1 /\ c_rels (p_cur s c) = 1)) /\
   (forall p, p_acq s p = live_sum (p_cur s) (p_ncur s) p).
 Proof.
-  intros max idle busyto ops D s. destruct (inv_run ops _ (inv_init max idle busyto) D) as (_ & HI & _).
-  split; [exact (inv_once _ HI)|exact (inv_acq _ HI)].
+  intros max idle busyto ops s. pose proof (inv_reach max idle busyto ops) as HI. fold s in HI.
+  split; [exact (inv_once false _ HI)|exact (inv_acq false _ HI)].
 Qed.
-Print Assumptions C15_once_partial.
+Print Assumptions C15_once_accounting.
 
 (* ... so cursors never pin partitions for ever: once no request is in flight and the clock has passed the
    time-outs, ONE pass of sweepByTime (Next() returning prev notwithstanding) empties the cache, every cursor
-   ever created has been closed exactly once and no partition is acquired *)
-Theorem C15_no_leak_partial : forall max idle busyto ops d, disciplined (init max idle busyto) ops = true ->
-  let s := final max idle busyto ops in
+   ever created has been closed exactly once and no partition is acquired. The one hypothesis is on the
+   environment, not on the clients: the clock does not go backwards (time.Now carries a monotonic reading and
+   expTime.Before(now) compares those), otherwise "past the time-outs" means nothing *)
+Theorem C15_no_leak : forall max idle busyto ops d, clock_monotone ops = true ->
+  let s := final code_variant max idle busyto ops in
   p_act s = [] -> (0 <= d)%Z -> (Z.max (p_idle s) (p_busyto s) < d)%Z ->
-  exists s1 s2, step s (OTick d) = Ok (s1, RDone) /\ step s1 OSweepTime = Ok (s2, RDone) /\
+  exists s1 s2, step code_variant s (OTick d) = Ok (s1, RDone) /\ step code_variant s1 OSweepTime = Ok (s2, RDone) /\
     p_curs s2 = [] /\ p_ncur s2 = p_ncur s /\
     (forall c, c < p_ncur s2 -> c_live (p_cur s2 c) = false /\ c_closes (p_cur s2 c) = 1 /\ c_rels (p_cur s2 c) = 1) /\
     (forall p, p_acq s2 p = 0%Z).
 Proof.
-  intros max idle busyto ops d D s Hq Hd0 Hd. destruct (inv_run ops _ (inv_init max idle busyto) D) as (_ & HI & _).
-  fold (final max idle busyto ops) in HI. fold s in HI.
-  assert (G : guard s (OTick d) = true) by (apply Z.leb_le; exact Hd0).
-  destruct (inv_step s (OTick d) HI G) as (s1 & r1 & E1 & HI1). cbn [step] in E1. injection E1 as <- <-.
+  intros max idle busyto ops d D s Hq Hd0 Hd.
+  destruct (inv_run true ops _ (inv_init true max idle busyto) (fun _ => D)) as (_ & HI & _).
+  fold (final code_variant max idle busyto ops) in HI. fold s in HI.
+  assert (G : tick_ok true (OTick d)) by (intros _; exact Hd0).
+  destruct (inv_step true s (OTick d) HI G) as (s1 & r1 & E1 & HI1). cbn [step] in E1. injection E1 as <- <-.
   exists (set_now s (p_now s + d)).
-  destruct (drain (set_now s (p_now s + d)) HI1 Hq) as (s2 & E2 & G1 & G2 & G3 & G4).
-  { intros k e Hk. exact (inv_all_expired s d HI Hd k e Hk). }
+  destruct (drain true (set_now s (p_now s + d)) HI1 Hq) as (s2 & E2 & G1 & G2 & G3 & G4).
+  { intros k e Hk. exact (inv_all_expired true s d eq_refl HI Hd k e Hk). }
   exists s2. cbn [step]. rewrite E2. cbn [lift].
   split; [reflexivity|]. split; [reflexivity|]. split; [exact G1|]. split; [exact G2|]. split; [exact G3|exact G4].
 Qed.
-Print Assumptions C15_no_leak_partial.
+Print Assumptions C15_no_leak.
 
 (* ------------------------------------------------------------------ shutdown *)
-Definition C15_shutdown_statement : Prop :=
-  forall max idle busyto ops, disciplined (init max idle busyto) ops = true ->
-  let s := final max idle busyto (ops ++ [OShutdown]) in
-  p_act s = [] -> forall c, c < p_ncur s -> c_rels (p_cur s c) = 1.
+(* after Shutdown nothing stays cached; if no request is in flight every cursor ever created has been closed, its
+   partitions released exactly once, and the factory holds no acquisition (a request still in flight closes its
+   cursor at its Release: C15_once_accounting) *)
+Definition shutdown_statement (v : variant) : Prop :=
+  forall max idle busyto ops,
+  let s := final v max idle busyto (ops ++ [OShutdown]) in
+  p_curs s = [] /\
+  (p_act s = [] -> (forall c, c < p_ncur s -> c_rels (p_cur s c) = 1) /\ (forall p, p_acq s p = 0%Z)).
 
-(* Shutdown() only stops the sweeper: the cache is left as it is ... *)
-Theorem C15_shutdown_closes_nothing : forall s, step s OShutdown = Ok (s, RDone).
-Proof. reflexivity. Qed.
-Print Assumptions C15_shutdown_closes_nothing.
-
-(* ... so a cursor idle in the cache at shutdown is never closed *)
-Theorem C15_shutdown_refuted : exists max idle busyto ops,
-  disciplined (init max idle busyto) (ops ++ [OShutdown]) = true /\
-  let s := final max idle busyto (ops ++ [OShutdown]) in
-  p_act s = [] /\ 0 < p_ncur s /\ c_rels (p_cur s 0) = 0 /\ p_acq s 0%N = 1%Z.
+Theorem C15_shutdown : shutdown_statement code_variant.
 Proof.
-  exists 10, 3%Z, 7%Z, [OLookup 0 5 true 0 (QParts [0%N; 1%N]) PHead 100; OCreate 0; OInsert 0; ORelease 0].
-  vm_compute. repeat split; reflexivity || lia.
+  intros max idle busyto ops s.
+  assert (HI : Inv false s) by apply inv_reach.
+  assert (Hc : p_curs s = []).
+  { unfold s, final. rewrite run_snoc by apply C15_no_panic.
+    destruct (inv_shutdown false _ (inv_reach max idle busyto ops)) as (s' & E & _ & Hc).
+    cbn [step code_variant v_evict]. rewrite E. exact Hc. }
+  split; [exact Hc|]. intros Ha.
+  pose proof (inv_empty_closed false s HI Hc Ha) as Cl. split.
+  - intros c Hn. apply (Cl c Hn).
+  - intros p. rewrite (inv_acq false s HI p). apply live_sum_dead. intros c Hn. apply (Cl c Hn).
 Qed.
-Print Assumptions C15_shutdown_refuted.
+Print Assumptions C15_shutdown.
+
+(* before the repair Shutdown() only stopped the sweeper: a cursor idle in the cache was never closed *)
+Theorem C15_shutdown_sweeper_only_refuted : ~ shutdown_statement old_variant.
+Proof.
+  intros H.
+  destruct (H 10 3%Z 7%Z [OLookup 0 5 true 0 (QParts [0%N; 1%N]) PHead 100; OCreate 0; OInsert 0; ORelease 0]) as [H1 _].
+  vm_compute in H1. discriminate H1.
+Qed.
+Print Assumptions C15_shutdown_sweeper_only_refuted.
+
+(* Shutdown while a request is in flight: its cursor is dropped from the cache, stays open, and is closed by its Release *)
+Example C15_shutdown_busy :
+  let ops := [OLookup 0 5 true 0 (QParts [0%N; 1%N]) PHead 100; OCreate 0; OInsert 0; OShutdown] in
+  let s := final code_variant 10 3 7 ops in let s' := final code_variant 10 3 7 (ops ++ [ORelease 0]) in
+  p_curs s = [] /\ c_live (p_cur s 0) = true /\ p_acq s 0%N = 1%Z /\ p_max s = 10 /\
+  c_rels (p_cur s' 0) = 1 /\ p_acq s' 0%N = 0%Z /\ p_act s' = [].
+Proof. vm_compute. repeat split; reflexivity. Qed.
 
 (* ------------------------------------------------------------------ resume *)
 (* unconditionally: a request naming an id the cache does not know (never seen, expired, evicted) is not refused:
@@ -252,13 +314,13 @@ Definition tour : list op :=
    OLookup 1 6 true 0 (QParts [0%N]) PHead 109; OCreate 1; OInsert 1].
 
 Example C15_nonvacuous :
-  disciplined (init 2 3 7) tour = true /\
-  outcome_of 2 3 7 tour = Ok tt /\
-  p_ncur (final 2 3 7 tour) = 8 /\
-  map fst (p_curs (final 2 3 7 tour)) = [109%N; 7%N; 6%N] /\
-  act_get (p_act (final 2 3 7 tour)) 1 = AHold 7 /\
-  map (fun c => c_rels (p_cur (final 2 3 7 tour) c)) (seq 0 8) = [1; 1; 1; 1; 1; 0; 0; 0] /\
-  nth 9 (snd (fst (run (init 2 3 7) tour))) RNone = RRefused.
+  disciplined code_variant (init 2 3 7) tour = true /\
+  outcome_of code_variant 2 3 7 tour = Ok tt /\
+  p_ncur (final code_variant 2 3 7 tour) = 8 /\
+  map fst (p_curs (final code_variant 2 3 7 tour)) = [109%N; 7%N; 6%N] /\
+  act_get (p_act (final code_variant 2 3 7 tour)) 1 = AHold 7 /\
+  map (fun c => c_rels (p_cur (final code_variant 2 3 7 tour) c)) (seq 0 8) = [1; 1; 1; 1; 1; 0; 0; 0] /\
+  nth 9 (snd (fst (run code_variant (init 2 3 7) tour))) RNone = RRefused.
 Proof. vm_compute. repeat split; reflexivity. Qed.
 
 (* Next() returns prev: after an element is removed the sweep skips its neighbour. Three idle cursors, the two
@@ -268,8 +330,8 @@ Example C15_sweep_skips_neighbour :
   let ops := [OLookup 0 1 true 0 (QParts [0%N]) PHead 100; OCreate 0; OInsert 0; ORelease 0;
               OLookup 0 2 true 0 (QParts [0%N]) PHead 101; OCreate 0; OInsert 0; ORelease 0; OTick 4;
               OLookup 0 3 true 0 (QParts [0%N]) PHead 102; OCreate 0; OInsert 0; ORelease 0] in
-  disciplined (init 10 3 7) (ops ++ [OSweepTime; OSweepTime]) = true /\
-  cached_ids (final 10 3 7 ops) = [1%N; 2%N; 3%N] /\
-  cached_ids (final 10 3 7 (ops ++ [OSweepTime])) = [2%N; 3%N] /\
-  cached_ids (final 10 3 7 (ops ++ [OSweepTime; OSweepTime])) = [3%N].
+  disciplined code_variant (init 10 3 7) (ops ++ [OSweepTime; OSweepTime]) = true /\
+  cached_ids (final code_variant 10 3 7 ops) = [1%N; 2%N; 3%N] /\
+  cached_ids (final code_variant 10 3 7 (ops ++ [OSweepTime])) = [2%N; 3%N] /\
+  cached_ids (final code_variant 10 3 7 (ops ++ [OSweepTime; OSweepTime])) = [3%N].
 Proof. vm_compute. repeat split; reflexivity. Qed.
